@@ -17,7 +17,7 @@ def budget(tier):
 
 
 def strategy(tier):
-    return gen.map_cases(max_cells=8)
+    return gen.map_cases(max_cells=8, max_iter=300)
 
 
 KNOWN_TRIGGERS = common.MAP_KNOWN_TRIGGERS
